@@ -62,8 +62,12 @@ let () =
       let o = observe all_layouts f in
       let segs = String.concat "," (List.map (fun (n, z) -> Printf.sprintf "%d:%s" (int_of_nat n) (string_of_z z)) o.ob_segments) in
       let ((a, b), c) = o.ob_fc in
-      Printf.printf "lines=%d records=%d n5=%d n67=%d segs=[%s] fc=%s/%s/%s tab=%s fit=%s shape=%s bounds=%s noiat=%s\n"
+      let retab = match o.ob_retab with
+        | None -> "refused"
+        | Some (bs, ((x, y), z)) ->
+          Printf.sprintf "[%s]%s/%s/%s" (String.concat "," (List.map string_of_z bs)) (string_of_z x) (string_of_z y) (string_of_z z) in
+      Printf.printf "lines=%d records=%d n5=%d n67=%d segs=[%s] fc=%s/%s/%s tab=%s fit=%s shape=%s bounds=%s noiat=%s recreate=%s\n"
         (int_of_nat o.ob_lines) (int_of_nat o.ob_records) (int_of_nat o.ob_n5) (int_of_nat o.ob_n67) segs
         (string_of_z a) (string_of_z b) (string_of_z c)
-        (b01 o.ob_tab) (b01 o.ob_fit) (b01 o.ob_shape) (b01 o.ob_bounds) (b01 o.ob_noiat)
+        (b01 o.ob_tab) (b01 o.ob_fit) (b01 o.ob_shape) (b01 o.ob_bounds) (b01 o.ob_noiat) retab
     | _ -> ())
